@@ -8,8 +8,8 @@
 //! guards like the library under test):
 //!  * correct programs (mutex counter, condvar hand-off, bounded channel, `OnceLock`, `RwLock`,
 //!    `Barrier`, compare-exchange slot pool, detached jobs feeding a bounded channel that the
-//!    caller thread drains, a producer on a plain `std::thread` that the simulator does not know
-//!    feeding simulated consumers) give the result their synchronisation guarantees under
+//!    caller thread drains, a producer on a plain `std::thread` feeding simulated consumers, `thread::spawn` +
+//!    `join` inside a parallel loop - such threads are adopted by the scheduler) give the result their synchronisation guarantees under
 //!    EVERY schedule - soundness: the emulation must not invent behaviour (lost wake-up, two owners
 //!    of a lock);
 //!  * incorrect ones are caught under SOME schedule - sensitivity: the load-then-store slot pool
@@ -105,6 +105,9 @@ fn rate(seed: u64, n: u64) {
 
 fn main() {
     let args: Vec<String> = std::env::args().collect();
+    if let Some(w) = std::env::var("BBGUARD_WATCH").ok().and_then(|s| s.parse::<u32>().ok()) {
+        bbguard::WATCH.store(w, std::sync::atomic::Ordering::Relaxed);
+    }
     if args.get(1).map(|s| s.as_str()) == Some("det") {
         // development aid: which program is not a function of its seed?
         let seed: u64 = args.get(2).and_then(|s| s.parse().ok()).unwrap_or(1);
@@ -116,10 +119,10 @@ fn main() {
                     continue;
                 }
                 eprintln!("=== A");
-                let a = under_sim(s, || (bbtarget::mutex_counter(5, 3), bbtarget::slot_claim(10, 2, false)));
+                let a = under_sim(s, || (bbtarget::external_producer(6, 2), bbtarget::spawn_join_inside(3)));
                 eprintln!("=== B");
-                let b = under_sim(s, || (bbtarget::mutex_counter(5, 3), bbtarget::slot_claim(10, 2, false)));
-                println!("{} {}", a.decisions.len(), b.decisions.len());
+                let b = under_sim(s, || (bbtarget::external_producer(6, 2), bbtarget::spawn_join_inside(3)));
+                println!("{} {} same={}", a.decisions.len(), b.decisions.len(), a.decisions == b.decisions);
                 continue;
             }
             let a = under_sim(s, || bbtarget::mutex_counter(5, 3));
@@ -132,8 +135,8 @@ fn main() {
             if a.decisions != b.decisions {
                 println!("slot_claim seed {} differs: {} / {}", i, a.decisions.len(), b.decisions.len());
             }
-            let a = under_sim(s, || (bbtarget::mutex_counter(5, 3), bbtarget::slot_claim(10, 2, false)));
-            let b = under_sim(s, || (bbtarget::mutex_counter(5, 3), bbtarget::slot_claim(10, 2, false)));
+            let a = under_sim(s, || (bbtarget::external_producer(6, 2), bbtarget::spawn_join_inside(3)));
+            let b = under_sim(s, || (bbtarget::external_producer(6, 2), bbtarget::spawn_join_inside(3)));
             if a.decisions != b.decisions {
                 let k = a.decisions.iter().zip(b.decisions.iter()).position(|(x, y)| x != y);
                 println!("pair seed {} differs: {} / {} first at {:?}; values {:?} {:?}", i, a.decisions.len(), b.decisions.len(), k, a.value, b.value);
@@ -220,6 +223,17 @@ fn main() {
             mismatch("external_producer", i, format!("{} != {}", r.value, bbtarget::external_producer_expected(10)));
         }
         total.add(&r.stats);
+        let r = under_sim(s ^ 13, || bbtarget::spawn_join_inside(5));
+        if r.value != bbtarget::spawn_join_inside_expected(5) {
+            mismatch("spawn_join_inside", i, format!("{} != {}", r.value, bbtarget::spawn_join_inside_expected(5)));
+        }
+        if r.stats.threads_adopted != 5 {
+            mismatch("spawn_join_inside", i, format!("{} of 5 threads adopted by the scheduler", r.stats.threads_adopted));
+        }
+        if r.stats.ops_with_outside_threads != 0 {
+            mismatch("spawn_join_inside", i, "a thread of the program ran outside the scheduler".to_string());
+        }
+        total.add(&r.stats);
         // -- sleeps are simulated --
         let t0 = std::time::Instant::now();
         let r = under_sim(s ^ 8, || {
@@ -252,8 +266,12 @@ fn main() {
             evals += 1;
         }
         // -- determinism: the same seed again --
-        let a = under_sim(s ^ 10, || (bbtarget::mutex_counter(5, 3), bbtarget::slot_claim(10, 2, false)));
-        let b = under_sim(s ^ 10, || (bbtarget::mutex_counter(5, 3), bbtarget::slot_claim(10, 2, false)));
+        // (programs that start threads of their own are left out: the last moments of an adopted
+        // thread - std dropping the thread's handle after the thread-local destructors - are not
+        // under the scheduler's control, and a reference count decremented a little earlier or later
+        // changes which thread frees an object, hence the sequence of guards passed)
+        let a = under_sim(s ^ 10, || (bbtarget::mutex_counter(5, 3), bbtarget::slot_claim(10, 2, false), bbtarget::spawn_and_recv(2, 3)));
+        let b = under_sim(s ^ 10, || (bbtarget::mutex_counter(5, 3), bbtarget::slot_claim(10, 2, false), bbtarget::spawn_and_recv(2, 3)));
         if a.value != b.value || a.decisions != b.decisions {
             mismatch(
                 "determinism",
@@ -262,7 +280,7 @@ fn main() {
             );
         }
         total.add(&a.stats);
-        evals += 13;
+        evals += 14;
     }
     let mut extra = 0u64;
     while racy_schedules < 160 {
@@ -328,7 +346,7 @@ fn main() {
         }
     }
     println!(
-        "synccheck: programs=14 evaluations={} mismatches={} racy_slot_pool_caught_in={}/{} lock_order_deadlocks={}/{} futex_waits={} futex_wakes={} futex_timeouts={} sleeps_simulated={} bb_preemptions={} guards_passed={} guard_sites={}",
+        "synccheck: programs=15 evaluations={} mismatches={} racy_slot_pool_caught_in={}/{} lock_order_deadlocks={}/{} futex_waits={} futex_wakes={} futex_timeouts={} sleeps_simulated={} bb_preemptions={} guards_passed={} guard_sites={}",
         evals,
         bad,
         racy_clashes,
